@@ -16,7 +16,11 @@ public:
 template<>
 SafeInt Converter<SafeInt>::getValue(Number const & val) {
     assert(val.isInteger());
-    return SafeInt(static_cast<ptrdiff_t>(val.get_d()));
+    // exact conversion: going through double silently rounds constants beyond 2^53
+    mpz_class const num = val.getMpq().get_num();
+    if (not num.fits_slong_p()) { throw std::overflow_error("Constant does not fit the integer difference logic solver"); }
+    static_assert(sizeof(long) == sizeof(ptrdiff_t));
+    return SafeInt(static_cast<ptrdiff_t>(num.get_si()));
 }
 
 template<>
